@@ -953,6 +953,8 @@ class TupleOf(DataType):
         return tuple(sub.import_value(elem) for sub, elem in zip(self.members, value))
 
     def format_value(self, value, unit=True):
+        if len(self.members) == 1:  # python syntax for a tuple with one element
+            return f'({self.members[0].format_value(value[0], unit)},)'
         return f"({', '.join([sub.format_value(elem, unit) for sub, elem in zip(self.members, value)])})"
 
     def compatible(self, other):
